@@ -46,6 +46,7 @@ type segment struct {
 	Kind        int  // context kind of the Acquire
 	Body        []op // operations between Acquire and the final release
 	Tail        int  // number of final release calls (>= 1)
+	HandOff     bool // the owner makes no final release call if a call of its release func (by anyone) has already begun: released exactly once, by someone else
 	CancelAfter int  // ctxCancelDuring: yields before the helper cancels
 }
 
@@ -82,7 +83,7 @@ func opsString(ops []op) string {
 func (s script) String() string {
 	var parts []string
 	for _, seg := range s {
-		parts = append(parts, fmt.Sprintf("A:%s[%s]R%d", ctxNames[seg.Kind], opsString(seg.Body), seg.Tail))
+		parts = append(parts, fmt.Sprintf("A:%s[%s]R%d%s", ctxNames[seg.Kind], opsString(seg.Body), seg.Tail, map[bool]string{true: "h"}[seg.HandOff]))
 	}
 	return strings.Join(parts, " ; ")
 }
@@ -157,6 +158,7 @@ func genScript(r *rand.Rand, simple bool) script {
 				seg.Tail = 2
 			}
 		}
+		seg.HandOff = r.Intn(3) == 0
 		nb := r.Intn(5)
 		if simple {
 			nb = r.Intn(3)
@@ -260,6 +262,12 @@ func (e *env) runScript(a *actor, r *rand.Rand, sc script) {
 		}
 		h := e.acquire(a, ctx, seg.Kind, cancelTick)
 		e.runOps(a, r, h, seg.Body, false)
+		if seg.HandOff && atomic.LoadInt64(&h.end) != inf {
+			// a release call on this holder has begun (and will return): the
+			// holder has been released, the owner adds no call of its own
+			e.count("op:owner_leaves_release_to_earlier_call")
+			continue
+		}
 		for k := 0; k < seg.Tail; k++ {
 			if k > 0 {
 				e.count("op:double_release")
@@ -531,7 +539,7 @@ func randomScenario(run *vlib.Run, i int, agg *vlib.HitAgg, simple bool) (*env, 
 		ss = append(ss, fmt.Sprintf("g%d: %s", k, s))
 	}
 	desc["scripts"] = ss
-	desc["script_format"] = "A:<ctx>[ops]R<k>: Acquire, ops, k release calls; wK yields, T(..) TemporarilyRelease, P(..) TemporarilyRelease whose f panics (recovered), R own release, F foreign release, S foreign release aimed at a returning TemporarilyRelease, N TemporarilyRelease without holder, C{..} another goroutine calls Acquire on this holder's returned context (nested Acquire), runs the ops, releases"
+	desc["script_format"] = "A:<ctx>[ops]R<k>[h]: Acquire, ops, k release calls (h: none if a call of the release func by anyone has already begun); wK yields, T(..) TemporarilyRelease, P(..) TemporarilyRelease whose f panics (recovered), R own release, F foreign release, S foreign release aimed at a returning TemporarilyRelease, N TemporarilyRelease without holder, C{..} another goroutine calls Acquire on this holder's returned context (nested Acquire), runs the ops, releases"
 
 	y.Install()
 	defer vlib.Uninstall()
@@ -604,10 +612,11 @@ func targetedScenario(run *vlib.Run, i int, agg *vlib.HitAgg) {
 	n := 1 + i%4
 	preWaiter := (i/4)%2 == 1
 	intensity := []int{0, 25}[(i/8)%2]
+	handOff := (i/16)%2 == 1 // H1 makes no release call of its own once the foreign call has begun
 	e := newEnv(n)
 	y := vlib.NewYielder(run.Seed()*7919+int64(i), intensity)
 	e.y = y
-	desc := map[string]interface{}{"kind": "targeted", "pre_blocked_waiter": preWaiter, "yield_intensity": intensity,
+	desc := map[string]interface{}{"kind": "targeted", "pre_blocked_waiter": preWaiter, "yield_intensity": intensity, "h1_released_only_by_the_foreign_call": handOff,
 		"scenario": "H1 Acquire; H1 TemporarilyRelease(f); n others Acquire and hold; f returns; at hook limiter.block.reacquiring (H1 status CAS blocked->acquired done, token not yet re-sent) another goroutine calls H1's release func; an extra goroutine calls Acquire"}
 
 	var h1 atomic.Value
@@ -666,7 +675,9 @@ func targetedScenario(run *vlib.Run, i int, agg *vlib.HitAgg) {
 			}
 			close(fEnd)
 		})
-		e.release(a, h)
+		if !handOff || atomic.LoadInt64(&h.end) == inf {
+			e.release(a, h)
+		}
 	}()
 	// the n others
 	for k := 0; k < n; k++ {
@@ -1167,7 +1178,7 @@ func TestCheck(t *testing.T) {
 	run.Rule("three seeded families on the real limiter: (1) targeted: n in 1..4, H1 inside TemporarilyRelease, n others hold, a foreign release of H1 is injected at hook limiter.block.reacquiring and an extra Acquire is issued (with/without an Acquire already parked, with/without random yields); " +
 		"(1b) nested Acquire: n in 2..4, parent P holds and keeps running, 1..2 child goroutines Acquire on P's returned context and wait inside (nested) TemporarilyRelease, n others Acquire, P releases only after n-1 of them hold; " +
 		"(1c) fault inside f: n in 1..3, A acquires and calls TemporarilyRelease (optionally nested) with an f that panics (recovered) or calls runtime.Goexit (deferred function carries on), A stays in its critical section, n-1 others hold, B's Acquire must wait for A's release; " +
-		"(2) random: n in 1..4, 2..24 goroutines, each 1..3 Acquire segments on a limiter / pre-cancelled / limiter-less / concurrently-cancelled context with bodies of nested TemporarilyRelease (depth<=3, one in five with an f that panics and is recovered), early and double release, release inside own TemporarilyRelease, release of other goroutines' holders (also aimed at a returning TemporarilyRelease), child goroutines that Acquire on the running parent's returned context and mostly wait inside TemporarilyRelease, TemporarilyRelease without holder, random hook yields and an optional injected release at a limiter hook; every scenario ends with the capacity check (n fresh Acquires, Acquire on cancelled / limiter-less contexts while all tokens are held, again on a pre-cancelled and on a cancelled-while-waiting context with a live goroutine parked in Acquire, (n+1)-th Acquire only after a release); " +
+		"(2) random: n in 1..4, 2..24 goroutines, each 1..3 Acquire segments on a limiter / pre-cancelled / limiter-less / concurrently-cancelled context with bodies of nested TemporarilyRelease (depth<=3, one in five with an f that panics and is recovered), early and double release, holders released exactly once by another goroutine (the owner adds no call once one has begun), release inside own TemporarilyRelease, release of other goroutines' holders (also aimed at a returning TemporarilyRelease), child goroutines that Acquire on the running parent's returned context and mostly wait inside TemporarilyRelease, TemporarilyRelease without holder, random hook yields and an optional injected release at a limiter hook; every scenario ends with the capacity check (n fresh Acquires, Acquire on cancelled / limiter-less contexts while all tokens are held, again on a pre-cancelled and on a cancelled-while-waiting context with a live goroutine parked in Acquire, (n+1)-th Acquire only after a release); " +
 		"(3) the targeted histories with n<=2 and short random histories (<=12 scripted operations plus the capacity check, n in 1..2, 2..4 goroutines) additionally checked with porcupine against a counting-semaphore model. " +
 		"Non-trivial = the limit was reached in the scripted part (observed overlap == n before the capacity check) and some holder had a TemporarilyRelease plus a foreign release or a release inside it; distinct = n, max overlap and the multiset of per-holder lifecycles (outermost TR enter/return, own/foreign release and whether it fell outside TR, inside f, or in the re-acquire window).")
 	run.Assume("holding spans are bracketed by ticks of one atomic counter taken after Acquire returned / before release is called / before TemporarilyRelease is entered / after it returned, so the monitor can only under-count")
